@@ -306,6 +306,31 @@ def run(R, only_cases=None):
             if why is not None:
                 R.property_fails(classify(c), "C06 " + why, {"kind": "column-read", "case": c, "observed": o})
         R.coverage["search_cases"] = len(extra)
+    # oracle only (sizes the unary Coq model cannot count): run lengths at the 2-byte and 16-bit boundaries of the run-length encoding
+    if only_cases is None:
+        big = []
+        for _ in range(3 if R.tier == "quick" else 12):
+            ty = R.rng.choice(["i32", "i64", "bool", "str"])
+            runs = R.rng.sample([16383, 16384, 16385, 65535, 65536, 65537, 70000, 3, 1], 4)
+            vals, prev, spec = [], None, []
+            for k in runs:
+                v = gen_value(R.rng, ty, "random")
+                while v == prev:
+                    v = gen_value(R.rng, ty, "random")
+                prev = v
+                vals += [v] * k
+                spec.append([v, k])
+            n = len(vals)
+            big.append({"ty": ty, "nullable": False, "encode": 1, "block": 4096, "crc": True, "arrays": [vals], "_runs": spec,
+                        "reads": [{"start": 0, "ops": [["n", None]] * 4 + [["n", 100000]] * 3},
+                                  {"start": max(0, n - 5), "ops": [["n", None], ["n", None]]},
+                                  {"start": runs[0] - 1, "ops": [["n", 3], ["s", max(0, runs[1] - 2)], ["n", 4], ["n", None]]}]})
+        for c, o in zip(big, run_harness("c06", [{k: v for k, v in c.items() if k != "_runs"} for c in big], jobs=4)):
+            why = oracle(c, o)
+            if why is not None:
+                R.property_fails(classify(c), "C06 (long runs) " + why, {"kind": "column-read", "case": {**{k: v for k, v in c.items() if k != "_runs"}, "arrays": "one array: the runs [value, length] of `runs`", "runs": c["_runs"]},
+                                                                                 "observed": str(o)[:300]})
+        R.coverage["long_run_cases_oracle_only"] = len(big)
     dist = {}
     for c in cases:
         key = f"{c['ty']}/{'null' if c['nullable'] else 'nn'}/{['plain', 'rle', 'dict'][c['encode']]}"
